@@ -8,15 +8,15 @@ using namespace vf;
 extern "C" { void* __real_malloc(size_t); void __real_free(void*); time_t __real_time(time_t*);
 void* __wrap_malloc(size_t n) { auto& w = deps::wrap(); if (w.window && !w.in_stub) w.malloc_calls++; return __real_malloc(n); }
 void __wrap_free(void* p) { auto& w = deps::wrap(); if (w.window && !w.in_stub) w.free_calls++; __real_free(p); }
-time_t __wrap_time(time_t* t) { auto& w = deps::wrap(); if (w.window && !w.in_stub) w.time_calls++; return __real_time(t); } }
+time_t __wrap_time(time_t* t) { auto& w = deps::wrap(); if (w.window && !w.in_stub) { w.time_calls++; if (w.fake) { if (t) *t = (time_t)w.fake_time; return (time_t)w.fake_time; } } return __real_time(t); } }
 #endif
 
 static std::string oracle(const Case& c) {
     Evidence& ev = W().ev;
     if (c.get("kind") == "bit") {
         // one single-bit random output: the 150 secret bits are exactly the delivered bytes, top two bits of the last byte dropped
-        deps::Kit& k = deps::kit(0); k.reset_all(); deps::inject(0); polyseed_enable_features(0); int b = (int)c.u("bit") % 152;
-        std::vector<uint8_t> r(19, c.u("invert") ? 0xFF : 0x00); r[b / 8] ^= (uint8_t)(0x80 >> (b % 8)); k.rand_bytes = r; k.clock = c.u("t");
+        deps::Kit& k = deps::kit(0); k.reset_all(); deps::inject(0); polyseed_enable_features(0); int b = (int)(c.u("bit") % 152);
+        std::vector<uint8_t> r(19, c.u("invert") ? 0xFF : 0x00); if (c.u("bit") < 152) r[b / 8] ^= (uint8_t)(0x80 >> (b % 8)); /* bit = 152: the constant output (all zero / all one) itself */ k.rand_bytes = r; k.clock = c.u("t");
         polyseed_data* s = nullptr; int st = polyseed_create(0, &s); if (st != 0) return std::string("create returned ") + model::status_name(st);
         lib::Image img = lib::store(s); polyseed_free(s); std::vector<uint8_t> want = r; want[18] &= 0x3F;
         if (memcmp(img.data() + 10, want.data(), 19) != 0) return "random output " + hex(r) + " gives secret " + hex(img.data() + 10, 19) + ", must be the delivered bytes with the top two bits of the last one dropped";
@@ -40,8 +40,8 @@ static std::string oracle(const Case& c) {
 static void run() {
     Args& a = W().args; { Case c; c.set("phase", "setup"); set_current(c); deps::inject(0); model::require_self_check(); }
     uint64_t done = 0;
-    for (int inv = 0; inv < 2; inv++) for (int b = 0; b < 152; b++) { if ((b + inv) % a.nworkers != a.worker) continue; Case c; c.set("kind", "bit"); c.set("bit", (uint64_t)b); c.set("invert", (uint64_t)inv); c.set("t", model::EPOCH + (uint64_t)b * 7777777ull); set_current(c); std::string m = oracle(c); done++; if (!m.empty() && enum_fail(c, m)) return; }
-    W().ev.enumerated["single-bit (and complemented) random-source outputs, 152 x 2"] += done;
+    for (int inv = 0; inv < 2; inv++) for (int b = 0; b <= 152; b++) { if ((b + inv) % a.nworkers != a.worker) continue; Case c; c.set("kind", "bit"); c.set("bit", (uint64_t)b); c.set("invert", (uint64_t)inv); c.set("t", model::EPOCH + (uint64_t)b * 7777777ull); set_current(c); std::string m = oracle(c); done++; if (!m.empty() && enum_fail(c, m)) return; }
+    W().ev.enumerated["single-bit (and complemented) random-source outputs plus the all-zero and all-one outputs, 153 x 2"] += done;
     seqgen::Weights wt{{10, 3, 10, 5, 5, 5, 5, 4, 2, 4, 2, 6, 1, 1}};
     rc_run("c18-histories", a.n(40000, 400000), 100, [&]() {
         auto seq = *seqgen::sequence(wt, *rc::gen::element(6, 15, 40));
